@@ -130,6 +130,62 @@ Theorem C13_lossless_big_partial : forall mtu o st, 2 <= mtu < 2097152 -> small_
 Proof. exact big_obu_lossless. Qed.
 Print Assumptions C13_lossless_big_partial.
 
+(* ==== the general statements (closed during the build; they subsume the _partial ones above) ====
+   [spk] is a structured aggregation packet: flags Z, Y, N, whether the W field is used, and its
+   OBU elements; [spk_bytes] is its wire image (aggregation header, LEB128 length in front of every
+   element except the last one when W gives the count).  [run_elems] is what one packet means under
+   the AV1 RTP specification (first element continues the pending OBU when Z, last element stays
+   pending when Y), [glue] chains packets; [chain_ok] says Z of each packet equals Y of the previous
+   one, the first Z is 0, every packet has >= 1 element, none empty, W <= 3, N only without Z. *)
+From RTP Require Import Proofs.C15_Av1 Proofs.C13_Stream Proofs.C13_PayStream Proofs.C13_Lossless.
+
+(* decoder = specification, for any well-chained packet sequence whose glued elements are OBUs as
+   transmitted (parsable header, size flag clear, no temporal delimiter / tile list): every call
+   succeeds and the concatenated output is those OBUs with size fields restored, in order *)
+Theorem C13_depack_sem : forall pks st pending, chain_ok pending pks ->
+  (pending = true -> ad_buffer st <> []) ->
+  Forall good_obu (fst (glue (ad_buffer st) pks)) ->
+  exists outs, snd (av1_run st (map spk_bytes pks)) = oks outs /\
+    concat outs = concat (map redeliver (fst (glue (ad_buffer st) pks))) /\
+    (pks <> [] -> ad_buffer (fst (av1_run st (map spk_bytes pks))) = snd (glue (ad_buffer st) pks)).
+Proof. exact av1_run_stream. Qed.
+Print Assumptions C13_depack_sem.
+
+(* lossless, end to end, for every OBU sequence (any types incl. sequence headers, temporal
+   delimiters and tile lists; any extension headers; payloads below 2^32 bytes) and every MTU >= 2:
+   the payloader output is a well-chained sequence of structured packets of at most MTU bytes whose
+   glued elements are exactly the transmitted OBUs - temporal delimiters and tile lists removed, size
+   flag cleared - and AV1Depacketizer, whatever it held before, returns them with size fields *)
+Theorem C13_lossless : forall mtu obus st, 2 <= mtu < 2097152 -> Forall wf_iobu obus ->
+  exists pks outs, av1_payload mtu (stream obus) = Ok (map spk_bytes pks) /\
+    chain_ok false pks /\ Forall (fun p => zlen (spk_bytes p) <= mtu) pks /\
+    glue [] pks = (map io_elem (filter transmitted obus), []) /\
+    snd (av1_run st (map spk_bytes pks)) = oks outs /\
+    concat outs = concat (map (io_bytes true) (filter transmitted obus)).
+Proof. exact av1_lossless. Qed.
+Print Assumptions C13_lossless.
+
+(* the same when the last OBU of the temporal unit omits its size field *)
+Theorem C13_lossless_unsized_last : forall mtu init lst st, 2 <= mtu < 2097152 -> Forall wf_iobu init -> wf_iobu lst ->
+  exists pks outs, av1_payload mtu (stream_u init lst) = Ok (map spk_bytes pks) /\
+    chain_ok false pks /\ Forall (fun p => zlen (spk_bytes p) <= mtu) pks /\
+    glue [] pks = (map io_elem (filter transmitted (init ++ [lst])), []) /\
+    snd (av1_run st (map spk_bytes pks)) = oks outs /\
+    concat outs = concat (map (io_bytes true) (filter transmitted (init ++ [lst]))).
+Proof. exact av1_lossless_u. Qed.
+Print Assumptions C13_lossless_unsized_last.
+
+Example C13_lossless_nonvacuous :
+  let obus := [mkIobu 2 None false []; mkIobu 1 None false [10; 11]; mkIobu 6 (Some (1, 0, 0)) false [1; 2; 3; 4; 5; 6; 7]] in
+  Forall wf_iobu obus /\
+  stream obus = [18; 0; 10; 2; 10; 11; 54; 32; 7; 1; 2; 3; 4; 5; 6; 7] /\
+  av1_payload 6 (stream obus) = Ok [[104; 3; 8; 10; 11; 52]; [208; 32; 1; 2; 3; 4]; [144; 5; 6; 7]] /\
+  map io_elem (filter transmitted obus) = [[8; 10; 11]; [52; 32; 1; 2; 3; 4; 5; 6; 7]].
+Proof.
+  split; [|split; [reflexivity|split; [vm_compute; reflexivity|reflexivity]]].
+  repeat (apply Forall_cons || apply Forall_nil); (split; [split; [cbn; lia|cbn; auto; lia]|cbn; lia]).
+Qed.
+
 Example C13_zy_example :
   exists ps, av1_payload 5 [50; 6; 1; 2; 3; 4; 5; 6] = Ok ps /\ map (fun p => (zbit p, ybit p)) ps
              = [(false, true); (true, false)].
